@@ -73,10 +73,17 @@ def instants(tier, seed):
 
 def run(chk, tier, seed):
     cfg = "INIT Init\nNEXT Next\nINVARIANT RoundTripNs\nINVARIANT RoundTripPv\nINVARIANT Monotone\nINVARIANT NextDay\nINVARIANT CarryOk\n"
-    self_r = tlc.run_tlc("PvTime", cfg, {"PvData": tlc.data_module("PvData", {"Obs": "<<>>"}, extends="Integers, Sequences")},
+    self_r = tlc.run_tlc("PvTime", cfg, {"PvData": tlc.data_module("PvData", {"DayRange": "{}", "Obs": "<<>>"}, extends="Integers, Sequences")},
                          modules=["PvTime"], workers=8, jvm="throughput")
     for v in self_r.violated:
         raise RuntimeError("spec/PvTime.tla is not self-consistent: " + v)
+    # the whole calendar of the quantifier's range: every day 1970-01-01 .. 2100-12-31 (first / last second, first / last
+    # microsecond) round-trips, is followed by the next date, and rounding up carries correctly
+    cal_r = tlc.run_tlc("PvTime", "INIT Init\nNEXT Next\nINVARIANT RoundTripNs\nINVARIANT RoundTripPv\nINVARIANT NextDay\nINVARIANT CarryOk\n",
+                        {"PvData": tlc.data_module("PvData", {"DayRange": "0..%d" % MAX_DAY, "Obs": "<<>>"}, extends="Integers, Sequences")},
+                        modules=["PvTime"], workers=8, jvm="throughput")
+    for v in cal_r.violated:
+        raise RuntimeError("spec/PvTime.tla is not self-consistent on the calendar 1970..2100: " + v)
     grid, rand, subus = instants(tier, seed)
     xs = grid + rand + subus
     # the date library is used only to *write* PV strings of chosen instants (inputs of the string -> ns direction)
@@ -141,11 +148,11 @@ def run(chk, tier, seed):
     nsh = max(1, min(10, (len(obs) + 9999) // 10000))
     shards = [idx[i::nsh] for i in range(nsh)]
     runs = [dict(main="PvTime", cfg="INIT Init\nNEXT Next\nINVARIANT Report\n",
-                 data={"PvData": tlc.data_module("PvData", {"Obs": "<<\n " + ",\n ".join(obs[i] for i in s) + "\n>>"},
+                 data={"PvData": tlc.data_module("PvData", {"DayRange": "{}", "Obs": "<<\n " + ",\n ".join(obs[i] for i in s) + "\n>>"},
                                                  extends="Integers, Sequences")},
                  modules=["PvTime"], workers=1, allow_violation=False, timeout=1800) for s in shards]
-    states = self_r.distinct
-    gen = self_r.generated
+    states = self_r.distinct + cal_r.distinct
+    gen = self_r.generated + cal_r.generated
     nbad = 0
     for s, r in zip(shards, tlc.run_many(runs, 10)):
         states += r.distinct
@@ -172,7 +179,7 @@ def run(chk, tier, seed):
                        len(GRID_DAYS), len(GRID_SECS), len(GRID_US)),
            "grid_instants": len(grid), "random_instants": len(rand), "nanosecond_instants": len(subus),
            "nanosecond_ordered_pairs": len(wpairs), "mismatches": nbad,
-           "spec_self_check_states": self_r.distinct, "exhaustive": False,
+           "spec_self_check_states": self_r.distinct, "spec_calendar_states_every_day_1970_2100": cal_r.distinct, "exhaustive": False,
            "explanation": "TLC is the exact-arithmetic oracle of a transcribed pure function; there is no interleaving to "
                           "explore (DESIGN section 8)"}
     return cov, ["instants split into limbs by the harness (divmod)", "PV strings parsed by a regular expression",
